@@ -2,7 +2,7 @@
 
 Shape H(L): every sequence of L operations  start(g) | kill(g) (through the processor or through a promise)
 | process(1)  over G generator slots, from a fresh CoroutineProcessor, followed by a fixed epilogue of
-FLUSH process calls.  The generator bodies are code of this module: at every step they (a) report to the
+flushing process calls.  The generator bodies are code of this module: at every step they (a) report to the
 reference model, (b) query the state of every generator from inside, (c) may perform one pre-bounded
 *inside action* - start / kill / kill-then-start of any generator including themselves - and (d) draw
 their next item: yield None | yield 1 | yield 2 | return a value.  Items and inside actions are drawn
@@ -29,8 +29,9 @@ from desper.logic.coroutines import CoroutineProcessor, CoroutineState
 PROPERTY = 'C09'
 
 T, PAUSED, ACTIVE = CoroutineState.TERMINATED, CoroutineState.PAUSED, CoroutineState.ACTIVE
-ITEMS = [None, 1, 2, 'ret']
-FLUSH = 3           # epilogue frames (>= longest wait + 1)
+ITEMS = (None, 1, 2, 'ret')
+ITEMS_NONPOS = (None, 0, -1, 1, 2, 'ret')   # 0 and a negative number mean "next frame" exactly like None
+PERMS3 = [(0, 1, 2), (0, 2, 1), (1, 0, 2), (1, 2, 0), (2, 0, 1), (2, 1, 0)]
 
 
 class Slot:
@@ -49,6 +50,7 @@ class Slot:
         self.old = []
         self.exp_value = None
         self.value_open = False
+        self.forced = []        # items the body must yield first (built prefix)
 
     def exp_state(self):
         if not self.alive:
@@ -60,7 +62,13 @@ class Ctx:
     pass
 
 
-def h_life(sp, G=2, L=4, K=2, inside=1, outside_routes=True):
+def h_life(sp, G=2, L=4, K=2, inside=1, outside_routes=True, nonpos=False, prefix_waits=None):
+    """nonpos: bodies may also yield 0 and -1.  prefix_waits: three distinct positive waits; the history then
+    starts with a built prefix  start(a) start(b) start(c) process(1)  in which the three coroutines yield a
+    solver-chosen permutation of these waits (all PAUSED, every shape of a three-entry wait heap), followed by
+    the L free operations."""
+    items = ITEMS_NONPOS if nonpos else ITEMS
+    flush = 3 if prefix_waits is None else max(prefix_waits) + 2    # >= longest wait + 1
     H = Ctx()
     H.sp = sp
     H.proc = proc = CoroutineProcessor()
@@ -71,6 +79,7 @@ def h_life(sp, G=2, L=4, K=2, inside=1, outside_routes=True):
     H.inside_left = inside
     H.used = 0      # slots 0..used-1 have been started at least once; the others are indistinguishable
     H.epilogue = False
+    H.prefix = False
     H.K = K
 
     def targets():
@@ -203,7 +212,7 @@ def h_life(sp, G=2, L=4, K=2, inside=1, outside_routes=True):
             return ('ret', None)
         observe(who)
         # inside action
-        if H.inside_left > 0 and not H.epilogue:
+        if H.inside_left > 0 and not H.epilogue and not H.prefix:
             n = targets()
             act = sp.choose(1 + 3 * n, 'act.%s.%d' % (s.name, s.steps))
             if act:
@@ -223,10 +232,12 @@ def h_life(sp, G=2, L=4, K=2, inside=1, outside_routes=True):
                     sp.cover('inside-restart-' + tag)
                 observe(who + ' after the inside action')
         # item
-        if H.epilogue or s.steps >= H.K:
+        if s.forced:
+            item = s.forced.pop(0)
+        elif H.epilogue or s.steps >= H.K:
             item = 'ret'
         else:
-            item = ITEMS[sp.choose(len(ITEMS), 'item.%s.%d' % (s.name, s.steps))]
+            item = items[sp.choose(len(items), 'item.%s.%d' % (s.name, s.steps))]
         s.steps += 1
         sp.note('%s %s' % (who, 'returns' if item == 'ret' else 'yields %r' % (item,)))
         if item == 'ret':
@@ -239,10 +250,13 @@ def h_life(sp, G=2, L=4, K=2, inside=1, outside_routes=True):
                 s.value_open = True     # killed during its last step: the statement does not say
             s.sched, s.due = 'A', 2
             return ('ret', 'R:' + s.name)
-        if item is not None:
+        if item is not None and item > 0:
             s.sched, s.wait, s.acc = 'P', item, 0
             if not s.alive:
                 s.due = None            # killed during this step: it would next run when the wait elapses
+        elif item is not None:
+            # zero / negative: "next frame"; the coroutine stays ACTIVE
+            sp.cover('yield-zero' if item == 0 else 'yield-negative')
         return ('yield', item)
 
     def body(s):
@@ -309,6 +323,17 @@ def h_life(sp, G=2, L=4, K=2, inside=1, outside_routes=True):
 
     # ------------------------------------------------------------------ history
     observe('initially', types=True)
+    if prefix_waits is not None:
+        perm = PERMS3[sp.choose(len(PERMS3), 'perm')]
+        H.prefix = True
+        for s, k in zip(slots, perm):
+            s.forced = [prefix_waits[k]]
+            do_start(s, 'prefix:')
+        frame(1)
+        H.prefix = False
+        observe('after the prefix')
+        for s in slots:
+            sp.check(s.sched == 'P' and s.alive, 'prefix', 'prefix did not leave %s waiting' % s.name)
     for i in range(L):
         n = targets()
         op = sp.choose(2 * n + 1, 'op%d' % i)
@@ -325,7 +350,7 @@ def h_life(sp, G=2, L=4, K=2, inside=1, outside_routes=True):
             frame(1)
         observe('after ' + who.rstrip(':'), types=(i == L - 1))
     H.epilogue = True
-    for _ in range(FLUSH):
+    for _ in range(flush):
         frame(1)
         observe('epilogue frame %d' % H.frame)
     for s in slots:
@@ -340,27 +365,42 @@ _NT = ['restart-before-flush', 'restart-killed-waiter', 'restart-after-flush', '
        'inside-restart-self', 'inside-start-self']
 
 _NT_OUT = [t for t in _NT if not t.startswith('inside-')]
+_NT_NONPOS = ['yield-zero', 'yield-negative']
+_NT_HEAP = ['restart-before-flush', 'restart-killed-waiter', 'kill-paused', 'wait-elapsed', 'released-killed',
+            'released-finished', 'finish-value', 'start-running-ValueError', 'kill-not-running-ValueError']
 
 HARNESSES = {
     'life': dict(fn=h_life, nontrivial=_NT, required=_NT),
     # the same function run without inside actions (longer histories): the inside-* tags cannot be required
     'life-outside': dict(fn=h_life, nontrivial=_NT_OUT, required=_NT_OUT),
+    # ... with bodies that may also yield 0 and -1
+    'life-nonpos': dict(fn=h_life, nontrivial=_NT + _NT_NONPOS, required=_NT + _NT_NONPOS),
+    'life-nonpos-outside': dict(fn=h_life, nontrivial=_NT_OUT + _NT_NONPOS, required=_NT_OUT + _NT_NONPOS),
+    # ... after the built prefix with three waiters of distinct waits
+    'life-heap': dict(fn=h_life, nontrivial=_NT_HEAP, required=_NT_HEAP),
 }
+
+_HEAP = dict(G=3, K=2, prefix_waits=(1, 2, 3))
 
 TIERS = {
     'quick': [
-        ('life', dict(G=2, L=4, K=2, inside=1)),
+        ('life-nonpos', dict(G=2, L=4, K=2, inside=1, nonpos=True)),
         ('life', dict(G=3, L=4, K=2, inside=1)),
-        ('life-outside', dict(G=2, L=5, K=2, inside=0)),
+        ('life-nonpos-outside', dict(G=2, L=5, K=2, inside=0, nonpos=True)),
+        ('life-heap', dict(L=3, inside=0, **_HEAP)),
     ],
     'thorough': [
         ('life', dict(G=2, L=6, K=2, inside=1)),
         ('life', dict(G=3, L=5, K=2, inside=1)),
         ('life', dict(G=2, L=4, K=2, inside=2)),
         ('life-outside', dict(G=3, L=6, K=2, inside=0)),
+        ('life-nonpos', dict(G=2, L=5, K=2, inside=1, nonpos=True)),
+        ('life-nonpos', dict(G=3, L=4, K=2, inside=1, nonpos=True)),
+        ('life-heap', dict(L=4, inside=0, **_HEAP)),
+        ('life-heap', dict(L=3, inside=1, **_HEAP)),
     ],
 }
-BUDGET_S = {'quick': 120, 'thorough': 1500}
+BUDGET_S = {'quick': 180, 'thorough': 2400}
 
 EXPLANATION = (
     'Bounded exhaustive exploration of the real CoroutineProcessor / CoroutinePromise: every history of L '
@@ -379,10 +419,13 @@ RULE = ('one evaluation = one feasible history (operation sequence x body script
         'or a release check')
 BOUNDS = {
     'quick': '(G=2 generators, L=4 operations, at most 1 inside action = start/kill/kill+start of any generator '
-             'incl. the running one), (G=3, L=4, 1 inside action), (G=2, L=5, none); always + 3 flushing frames, '
-             '<=2 drawn items per body then return, waits 1 or 2 with dt=1',
-    'thorough': '(G=2, L=6, 1 inside action), (G=3, L=5, 1 inside action), (G=2, L=4, 2 inside actions), '
-                '(G=3, L=6, none); otherwise as quick',
+             'incl. the running one, items None/0/-1/1/2/return), (G=3, L=4, 1 inside action, items '
+             'None/1/2/return), (G=2, L=5, no inside action, items None/0/-1/1/2/return), (heap prefix: three '
+             'coroutines PAUSED with a solver-chosen permutation of the waits 1,2,3, then L=3 free operations); '
+             'always followed by flushing frames (longest wait + 2), <=2 items per body then return, dt=1',
+    'thorough': 'items None/1/2/return: (G=2, L=6, 1 inside action), (G=3, L=5, 1), (G=2, L=4, 2), (G=3, L=6, 0); '
+                'items None/0/-1/1/2/return: (G=2, L=5, 1), (G=3, L=4, 1); heap prefix (waits 1,2,3 permuted): '
+                'L=4 without and L=3 with 1 inside action; otherwise as quick',
 }
 ASSUMPTIONS = [
     'a coroutine (re)started from inside a body during a process call may or may not be advanced in that same '
@@ -399,7 +442,8 @@ ASSUMPTIONS = [
     'never-started one (symmetry reduction)',
     'after a verified release the slot continues with a fresh generator object resuming at the same script '
     'position (the processor cannot know the old object any more)',
-    'dt = 1 and waits 1 or 2 (timing over the reals is C08)',
+    'dt = 1 and waits 1 or 2 (1, 2, 3 in the heap-prefix configurations); yielding 0 or -1 must behave exactly '
+    'like yielding None (stays ACTIVE, advanced in the next call); timing over the reals is C08',
 ]
 OUTSIDE = ['exceptions raised by coroutine bodies', 'process() re-entered from inside a body',
            'histories longer than the bounds', 'the @coroutine decorator / World lookup',
